@@ -161,4 +161,143 @@ theorem pretty_where_notMixed (esc : Escapers) (env : Env) (pr : TokenParams) (s
       · rw [hnl] at hw
         exact getNewline_true (by simpa using hw)
 
+theorem getIndentation_pos_preserve {s : PStack} (h : s.getIndentation > 0) : s.inSpacePreserve = false := by
+  unfold PStack.getIndentation at h
+  cases hp : s.inSpacePreserve
+  · rfl
+  · simp [hp] at h
+
+theorem getNewline_true_preserve {s : PStack} (h : s.getNewline = true) : s.inSpacePreserve = false := by
+  unfold PStack.getNewline at h
+  cases hp : s.inSpacePreserve
+  · rfl
+  · simp [hp] at h
+
+theorem ownEvent_startTagClose {inScope : List (Nat × Nat)} {b : Bool} {n : Tree}
+    (h : OwnEvent inScope b n .startTagClose) : ∃ name, n.value = .element name := by
+  unfold OwnEvent edgeStart edgeEnd at h
+  cases hv : n.value <;> simp [hv] at h
+  exact ⟨_, rfl⟩
+
+/-- The stack the newline decision of an event looks at: `StartTagClose` decides after pushing
+    the element's own entry, every other event on the entries above its node. -/
+def pentriesNewline (o : Output) (n : Tree) (rel : Path) : PStack :=
+  match o with
+  | .startTagClose => pentriesIncl sup n rel
+  | _ => pentriesAbove sup n rel
+
+/-- A pretty token, the node it belongs to, and `prettify` on that node. -/
+theorem pretty_token_node (esc : Escapers) (env : Env) (pr : TokenParams) (start : Path) (n : Tree)
+    (inScope : List (Nat × Nat)) (hat : t.at? start = some n)
+    (hs : namespacesInScope t start = some inScope)
+    (ks : List (Path × Output × PrettyOutputToken))
+    (h : prettyTokensWith esc env pr sup t start = .ok ks)
+    (p : Path) (o : Output) (tok : PrettyOutputToken) (hk : (p, o, tok) ∈ ks) :
+    ∃ rel n', p = start ++ rel ∧ n.at? rel = some n' ∧ OwnEvent inScope (true && rel.isEmpty) n' o ∧
+      tok.indentation = (prettify sup (pentriesFor sup o n rel) n' o).2.1 ∧
+      tok.newline = (prettify sup (pentriesFor sup o n rel) n' o).2.2 := by
+  obtain ⟨rel, hp, hev, heq⟩ := pretty_token_entries sup t esc env pr start n inScope hat hs ks h _ hk
+  simp only at hp hev heq
+  subst hp
+  have hg : genOutputs t start = genNode inScope true start n := by simp [genOutputs, hat, hs]
+  rw [hg] at hev
+  obtain ⟨rel', n', hp', hat', _, hown⟩ := genNode_tagged inScope true start n _ _ hev
+  have hrr : rel' = rel := (List.append_cancel_left hp').symm
+  rw [hrr] at hat' hown
+  have hnode : t.at? (start ++ rel) = some n' := by rw [at?_append, hat]; exact hat'
+  refine ⟨rel, n', rfl, hat', hown, ?_, ?_⟩
+  · have := congrArg Prod.fst heq
+    simpa [prettifyAt, hnode] using this
+  · have := congrArg Prod.snd heq
+    simpa [prettifyAt, hnode] using this
+
+/-- The `xml:space="preserve"` rule on trees, full strength: a token is indented only if the
+    entries of the open elements its whitespace lands in are not in `preserve` scope, and gets a
+    newline only if the entries the newline lands in are not. -/
+theorem pretty_where_notPreserve (esc : Escapers) (env : Env) (pr : TokenParams) (start : Path) (n : Tree)
+    (inScope : List (Nat × Nat)) (hat : t.at? start = some n)
+    (hs : namespacesInScope t start = some inScope)
+    (ks : List (Path × Output × PrettyOutputToken))
+    (h : prettyTokensWith esc env pr sup t start = .ok ks)
+    (k : Path × Output × PrettyOutputToken) (hk : k ∈ ks) :
+    ∃ rel, k.1 = start ++ rel ∧
+      (k.2.2.indentation > 0 → PStack.inSpacePreserve (pentriesFor sup k.2.1 n rel) = false) ∧
+      (k.2.2.newline = true → PStack.inSpacePreserve (pentriesNewline sup k.2.1 n rel) = false) := by
+  obtain ⟨p, o, tok⟩ := k
+  obtain ⟨rel, n', hp, hat', hown, hind, hnl⟩ :=
+    pretty_token_node sup t esc env pr start n inScope hat hs ks h p o tok hk
+  refine ⟨rel, hp, ?_, ?_⟩
+  · intro hw
+    simp only at hw
+    rw [hind] at hw
+    cases o with
+    | startTagOpen name => exact getIndentation_pos_preserve (by simpa [prettify, pentriesFor] using hw)
+    | comment c => exact getIndentation_pos_preserve (by simpa [prettify, pentriesFor] using hw)
+    | pi tg d => exact getIndentation_pos_preserve (by simpa [prettify, pentriesFor] using hw)
+    | text c => simp [prettify] at hw
+    | pfx a b => simp [prettify] at hw
+    | «attribute» a v => simp [prettify] at hw
+    | startTagClose =>
+      simp only [prettify] at hw
+      split at hw
+      · split at hw <;> simp at hw
+      · simp at hw
+    | endTag name =>
+      simp only [prettify] at hw
+      split at hw
+      · simp only at hw
+        cases hc : PStack.inSpacePreserve (pentriesFor sup (Output.endTag name) n rel)
+        · rfl
+        · simp [hc] at hw
+      · simp at hw
+  · intro hw
+    simp only at hw
+    rw [hnl] at hw
+    cases o with
+    | startTagOpen name => simp [prettify] at hw
+    | comment c => exact getNewline_true_preserve (by simpa [prettify, pentriesFor, pentriesNewline] using hw)
+    | pi tg d => exact getNewline_true_preserve (by simpa [prettify, pentriesFor, pentriesNewline] using hw)
+    | text c => simp [prettify] at hw
+    | pfx a b => simp [prettify] at hw
+    | «attribute» a v => simp [prettify] at hw
+    | startTagClose =>
+      obtain ⟨name, hval⟩ := ownEvent_startTagClose hown
+      have hincl := pentriesIncl_eq sup n rel n' hat'
+      simp only [prettify, pentriesFor] at hw
+      by_cases hc : n'.firstChild?.isSome = true
+      · simp only [hc, if_true] at hw
+        by_cases hi : hasInlineChild n' = true
+        · simp [hi] at hw
+        · have hopen : openEntryOf sup n' = [entryFor sup n'] := by simp [openEntryOf, hval, hc]
+          simp only [pentriesNewline, hincl, hopen, List.singleton_append]
+          by_cases hsup : sup.contains name = true
+          · have he : entryFor sup n' = StackEntry.mixed := by
+              have : name ∈ sup := by simpa using hsup
+              simp [entryFor, hi, hval, this]
+            have : name ∈ sup := by simpa using hsup
+            simp only [hi, hval] at hw
+            simp [this] at hw
+            rw [he]
+            exact getNewline_true_preserve hw
+          · have he : entryFor sup n' = StackEntry.unmixed (elementSpace n') := by
+              have : name ∉ sup := by simpa using hsup
+              simp [entryFor, hi, hval, this]
+            have : name ∉ sup := by simpa using hsup
+            simp only [hi, hval] at hw
+            simp [this] at hw
+            rw [he]
+            exact getNewline_true_preserve hw
+      · simp [hc] at hw
+    | endTag name =>
+      have hval := ownEvent_endTag hown
+      have hincl := pentriesIncl_eq sup n rel n' hat'
+      simp only [prettify, pentriesFor] at hw
+      by_cases hc : n'.firstChild?.isSome = true
+      · have hopen : openEntryOf sup n' = [entryFor sup n'] := by simp [openEntryOf, hval, hc]
+        simp only [hc, if_true, hincl, hopen, List.singleton_append, List.tail_cons] at hw
+        exact getNewline_true_preserve hw
+      · have hopen : openEntryOf sup n' = [] := by simp [openEntryOf, hval, hc]
+        simp only [hc, hincl, hopen, List.nil_append] at hw
+        exact getNewline_true_preserve (by simpa [pentriesNewline] using hw)
+
 end XotModel
